@@ -1376,6 +1376,106 @@ def translate_cli_multi_tan(repo):
     return translate_cli(repo, ["tile_multi_tan_impl", "view_locally"])
 
 
+# ---------------------------------------------------------------------------------------------
+# toasty/builder.py: straight-line methods of class Builder as scripts of calls and attribute stores
+
+BUILDER_METHODS = ["__init__", "set_name", "prepare_study_tiling", "execute_study_tiling", "tile_base_as_study"]
+
+
+class MethodTranslator(ImplTranslator):
+    """A method of class Builder in the reading of ImplTranslator, extended by: parameters (self included) are
+    SName "<param>"; `**kwargs` in a call is the keyword ("**", SName "kwargs"); `a + b` is
+    SCallA "__add__" a [b] []; an attribute store `t.a = v` is the event SMethod t "__setattr__" [SStr "a"; v] [];
+    `return v` is the event SCall "return" [v] [] and ends the path; names imported at the top of builder.py may
+    be called as constructors; assigned method calls are recorded as events."""
+
+    def __init__(self, source, cls, name):
+        self.assign_events = True
+        self.tree = ast.parse(source)
+        cds = [n for n in self.tree.body if isinstance(n, ast.ClassDef) and n.name == cls]
+        if len(cds) != 1:
+            raise Unsupported(f"class {cls} not found")
+        fds = [n for n in cds[0].body if isinstance(n, ast.FunctionDef) and n.name == name]
+        if len(fds) != 1:
+            raise Unsupported(f"method {cls}.{name} not found")
+        self.fd = fds[0]
+        a = self.fd.args
+        if a.vararg or a.defaults or a.kwonlyargs or a.posonlyargs or not a.args or a.args[0].arg != "self":
+            raise Unsupported(f"signature of {cls}.{name} outside the subset")
+        self.params = [x.arg for x in a.args] + ([a.kwarg.arg] if a.kwarg else [])
+        self.kwarg = a.kwarg.arg if a.kwarg else None
+        self.imported = set()
+        for n in list(ast.walk(self.fd)) + list(self.tree.body):
+            if isinstance(n, ast.ImportFrom):
+                self.imported.update(x.asname or x.name for x in n.names)
+        self.modules = set()
+        self.cls = cls
+
+    def kwlist(self, call, env):
+        out = []
+        for k in call.keywords:
+            if k.arg is None:
+                if not (isinstance(k.value, ast.Name) and k.value.id == self.kwarg):
+                    self.fail(call, "** of something other than the method's own **kwargs")
+                out.append(f'("**", (SName {self.lit(k.value.id)}))')
+            else:
+                out.append(f"({self.lit(k.arg)}, {self.sval(k.value, env)})")
+        return "; ".join(out)
+
+    def sval(self, e, env):
+        if isinstance(e, ast.Name) and e.id not in env and e.id in self.params:
+            return f"(SName {self.lit(e.id)})"
+        if isinstance(e, ast.BinOp) and isinstance(e.op, ast.Add):
+            return f"(SCallA \"__add__\" {self.sval(e.left, env)} [{self.sval(e.right, env)}] [])"
+        if isinstance(e, ast.Call) and isinstance(e.func, ast.Name) and e.func.id in self.imported:
+            pos = "; ".join(self.sval(a, env) for a in e.args)
+            return f"(SNewP {self.lit(e.func.id)} [{pos}] [{self.kwlist(e, env)}])"
+        if isinstance(e, ast.Call) and isinstance(e.func, ast.Attribute):
+            pos = "; ".join(self.sval(a, env) for a in e.args)
+            return f"(SCallA {self.lit(e.func.attr)} {self.sval(e.func.value, env)} [{pos}] [{self.kwlist(e, env)}])"
+        return super().sval(e, env)
+
+    def run_block(self, stmts, env, calls):
+        if stmts:
+            s, rest = stmts[0], stmts[1:]
+            if isinstance(s, ast.Return) and s.value is not None:
+                ev = f"(SCall \"return\" [{self.sval(s.value, env)}] [])"
+                return f"(TDone [{'; '.join(calls + [ev])}])"
+            if isinstance(s, ast.Assign) and len(s.targets) == 1 and isinstance(s.targets[0], ast.Attribute):
+                t = s.targets[0]
+                ev = (f"(SMethod {self.sval(t.value, env)} \"__setattr__\" "
+                      f"[(SStr {self.lit(t.attr)}); {self.sval(s.value, env)}] [])")
+                return self.run_block(rest, env, calls + [ev])
+            if isinstance(s, ast.Expr) and isinstance(s.value, ast.Call) and isinstance(s.value.func, ast.Attribute):
+                c = s.value
+                pos = "; ".join(self.sval(a, env) for a in c.args)
+                ev = f"(SMethod {self.sval(c.func.value, env)} {self.lit(c.func.attr)} [{pos}] [{self.kwlist(c, env)}])"
+                return self.run_block(rest, env, calls + [ev])
+            if isinstance(s, ast.Assign) and len(s.targets) == 1 and isinstance(s.targets[0], ast.Name) \
+                    and isinstance(s.value, ast.Call) and isinstance(s.value.func, ast.Name) and s.value.func.id in self.imported \
+                    and s.value.func.id[:1].islower():
+                # `x = function(args)`: a library function (lower-case name) called for its result is an event too
+                c = s.value
+                pos = "; ".join(self.sval(a, env) for a in c.args)
+                env2 = dict(env)
+                env2[s.targets[0].id] = self.sval(c, env)
+                return self.run_block(rest, env2, calls + [f"(SCall {self.lit(c.func.id)} [{pos}] [{self.kwlist(c, env)}])"])
+        return super().run_block(stmts, env, calls)
+
+    def run(self):
+        body = self.run_block(list(self.fd.body), {}, [])
+        nm = self.fd.name.strip("_")
+        return f"Definition src_{self.cls}_{nm} : stree unit :=\n  {body}.\n"
+
+
+def translate_builder(repo):
+    """Gallina text for the straight-line methods of class Builder in <repo>/toasty/builder.py (raises Unsupported)"""
+    import os
+    src = open(os.path.join(str(repo), "toasty", "builder.py")).read()
+    hdr = CLI_HEADER.replace("toasty/cli.py", "toasty/builder.py").format(names="class Builder: " + ", ".join(BUILDER_METHODS))
+    return hdr + "\n".join(MethodTranslator(src, "Builder", m).run() for m in BUILDER_METHODS)
+
+
 def translate_cli_healpix(repo):
     """Gallina text for cli.tile_healpix_impl (raises Unsupported)"""
     return translate_cli(repo, ["tile_healpix_impl"], assign_events=True)
@@ -1392,5 +1492,5 @@ if __name__ == "__main__":
     fn = {"pyramid": translate_pyramid, "study": translate_study, "paths": translate_paths, "script": translate_script,
           "cli_cascade": translate_cli_cascade, "cli_transform": translate_cli_transform,
           "cli_allsky": translate_cli_allsky, "cli_multi_tan": translate_cli_multi_tan,
-          "cli_healpix": translate_cli_healpix, "cli_wwtl": translate_cli_wwtl}[which]
+          "cli_healpix": translate_cli_healpix, "cli_wwtl": translate_cli_wwtl, "builder": translate_builder}[which]
     sys.stdout.write(fn(sys.argv[1] if len(sys.argv) > 1 else "/repo"))
